@@ -314,7 +314,7 @@ def worker(ctx, job):
 def run(ctx):
     parts = ctx.pick(8, 16)
     jobs = [{"kind": "grid", "part": p, "parts": parts} for p in range(parts)]
-    n = ctx.pick(6000, 300000)
+    n = ctx.pick(6000, 200000)
     per = ctx.pick(750, 5000)
     jobs += [{"kind": "random", "count": per} for _ in range(n // per)]
     ctx.shard(jobs, timeout=ctx.pick(90, 340))
